@@ -34,6 +34,9 @@ CHECKS = {
  "C08": ("exploration", "runtime monitoring: grammar-based hostile-peer fuzzing (harness speaks the protocol) with panic hook, pending-operation registry, echo probe and counting-allocator memory oracle",
          "Held on N generated frame sequences (valid prefix + 1-6 hostile steps of 30 kinds, hostile handshakes, hostile stream length prefixes): no panic, every local user saw an error by quiescence whenever the dispatcher terminated, surviving endpoints still served a fresh open+echo, emitted frames stayed decodable, and heap growth between N and 4N flood frames of six classes stayed constant-bounded - except the recorded known finding (zero-port PortData).",
          "peer keeps reading; heap measured at quiescence by a counting allocator; sampling of frame sequences, not all sequences", "DESIGN.md §3 C08", "peer+refcodec+mem"),
+ "C04": ("exploration", "runtime monitoring: per-sender history oracle (unique ids, self-describing payloads) over seeded typed-channel workloads with failing/cancelled items, buffered and streamed",
+         "Held on N seeded channel histories over base, mpsc (either half remote, 1-3 senders), lr and oneshot channels: received values were intact, ordered, duplicate-free prefixes of each sender's successful sends (equality at a clean end), failed and cancelled items were never delivered, item failures stayed non-final on base/lr, nothing was pending at quiescence; sizes straddle max_data_size (helper-thread streaming), chunk size and both max_item_size limits.",
+         "encoded size approximated as payload + <48 bytes; mpsc channels may end at an item failure (documented); real helper threads are involved - a stuck run is decided by OS-level quiescence", "DESIGN.md §3 C04", "rig+history"),
 }
 
 NOT_YET = "check not yet implemented in this commit (DESIGN.md §6a gives the order of implementation)"
